@@ -90,7 +90,10 @@ def enc_list(l):
 
 
 # ----------------------------------------------------------------------------- layouts
-LAYOUTS = ["C", "F", "strided", "negstride", "offset", "transposed", "readonly"]
+LAYOUTS = ["C", "F", "strided", "negstride", "offset", "transposed", "readonly", "colcrop", "rowskip"]
+# views whose rows are contiguous although the array is not (a cropped window, every second row): what a "contiguous rows" fast
+# path would accept
+ROW_VIEWS = ["offset", "colcrop", "rowskip"]
 
 
 def apply_layout(a, kind, fill=None):
@@ -118,6 +121,25 @@ def apply_layout(a, kind, fill=None):
         if fill is not None:
             big[...] = fill
         v = big[tuple(slice(1, 1 + d) for d in a.shape)]
+        v[...] = a
+        return v
+    if kind == "colcrop":
+        big = np.zeros(a.shape[:-1] + (a.shape[-1] + 5,), a.dtype) if a.ndim else np.zeros((), a.dtype)
+        if a.ndim == 0:
+            big[...] = a
+            return big
+        if fill is not None:
+            big[...] = fill
+        v = big[..., 2:2 + a.shape[-1]]
+        v[...] = a
+        return v
+    if kind == "rowskip":
+        if a.ndim == 0:
+            return a.copy()
+        big = np.zeros((2 * a.shape[0],) + a.shape[1:], a.dtype)
+        if fill is not None:
+            big[...] = fill
+        v = big[::2]
         v[...] = a
         return v
     if kind == "transposed":
